@@ -70,8 +70,8 @@ void harness(void)
     env_reset();
     od_defaults();
     v1017 = HB0;
-    v1800_1[0] = 0x40000180; v1800_2[0] = 254; v1A00_0[0] = 1; v1A00[0][0] = CO_LINK(0x2103, 0, 8);
-    v1800_3[0] = 0; v1800_5[0] = 0;
+    V1800_1(0) = 0x40000180; V1800_2(0) = 254; V1A00_0(0) = 1; V1A00(0, 0) = CO_LINK(0x2103, 0, 8);
+    V1800_3(0) = 0; V1800_5(0) = 0;
     v1005 = 0x80; v1006 = 0;
     node_boot();
     CHECK(node.Error == CO_ERR_NONE, "configuration accepted");
